@@ -352,6 +352,34 @@ fn run_histories<F: MathFunction + Function<Trace = VmTrace> + Clone>(w: &mut dy
             let r = vharness::catch(std::panic::AssertUnwindSafe(|| e.eval_raw(&tape, Interval::from(x), Interval::from(y), Interval::from(z), None, &sv).map(|(v, _)| json!(ibits(&v))).map_err(|er| format!("{er}"))));
             emit_rec(w, id, &base, "interval", true, r.unwrap_or_else(|m| Err(format!("panic: {m}"))));
         }
+        // (3) long-lived tracing evaluators over shapes that are built, evaluated and dropped in turn: the shapes have
+        //     the same number of variables in different encounter orders, and a dropped shape's variable map is
+        //     typically reallocated at the same address for the next one
+        {
+            let mut pe = Shape::<F>::new_point_eval();
+            let mut ie = Shape::<F>::new_interval_eval();
+            let orders: [[&str; 3]; 6] = [["w0", "X", "w1"], ["X", "w1", "w0"], ["w1", "w0", "X"], ["X", "w0", "w1"], ["w0", "w1", "X"], ["w1", "X", "w0"]];
+            let mut shared: HashMap<String, Var> = HashMap::new();
+            for step in 0..6 {
+                let c = Case { order: orders[(step * 5 + round) % 6].iter().map(|s| s.to_string()).collect(), supplied: vec![] };
+                let bb = build_with::<F>(&c, round % 3, shared.clone());
+                shared = bb.vars.clone();
+                let mut values: HashMap<String, i64> = HashMap::new();
+                for (k, name) in bb.vars.keys().enumerate() {
+                    values.insert(name.clone(), 2 + 3 * k as i64 + rng.below(3) as i64);
+                }
+                let (sv, supplied) = shape_vars(&bb, &values);
+                let base = base_of(backend, &bb, &bb.shape, &values, &supplied, p, None, "tracing-reuse");
+                let (x, y, z) = (p[0] as f32, p[1] as f32, p[2] as f32);
+                let tape = bb.shape.ez_point_tape();
+                let r = vharness::catch(std::panic::AssertUnwindSafe(|| pe.eval_raw(&tape, x, y, z, None, &sv).map(|(v, _)| json!([bits(v)])).map_err(|er| format!("{er}"))));
+                emit_rec(w, id, &base, "point", false, r.unwrap_or_else(|m| Err(format!("panic: {m}"))));
+                let tape = bb.shape.ez_interval_tape();
+                let r = vharness::catch(std::panic::AssertUnwindSafe(|| ie.eval_raw(&tape, Interval::from(x), Interval::from(y), Interval::from(z), None, &sv).map(|(v, _)| json!(ibits(&v))).map_err(|er| format!("{er}"))));
+                emit_rec(w, id, &base, "interval", false, r.unwrap_or_else(|m| Err(format!("panic: {m}"))));
+                // bb (shape, tapes, variable map) is dropped here
+            }
+        }
         // (2) one bulk evaluator: many variables at n samples, then fewer variables at another n (and back)
         let many: Vec<String> = ["w0", "w1", "w2", "X", "w3", "Y"].iter().take(3 + round % 4).map(|s| s.to_string()).collect();
         let few: Vec<String> = [["Z"], ["w9"], ["X"]][round % 3].iter().map(|s| s.to_string()).collect();
